@@ -47,6 +47,7 @@ class blockiterator(object):
                 break
         if padding:
             nPi = self.lastblock(Pi,**kargs)
+            if bitlen==bitcnt: self.bitcnt = 0
             b,lastb= nPi[:self.blocklen],nPi[self.blocklen:]
             yield b
             if len(lastb)>0:
